@@ -1,6 +1,7 @@
 import TF.Proofs.PolyVal
 import TF.Proofs.PolyApi
 import TF.Proofs.PolyValDiv
+import TF.Proofs.GenBridgePoly
 /-!
 # C17 — polynomials have value semantics: stored leading zeros never change results
 
@@ -432,4 +433,142 @@ theorem fast_coset_evaluate_respects_denote {E : Ext K} (hN : Ext.LawfulNtt root
       fastCosetEvaluate_sound root hN p' offset order ω hω out' h2, h]
 example : denote ([5, 0, 0] : List ℚ) = denote [5] := by simp
 
+end TF.C17
+
+/-! ## regenerated-from-source bridge (tools/rs2lean_poly.py, `TF/Gen/PolyLoops.lean`) — BT6
+
+The storage observers of `polynomial.rs` — `degree`, `coefficients()`, `normalize`, `into_coefficients`,
+`leading_coefficient`, `==`, `is_zero`, `is_one`, `is_x` — and the constructors `new`, `zero`, `one`, `from_constant`,
+`into_owned` are **also regenerated from the text of `polynomial.rs` on every run** (`TF.Gen.Poly.*`): the field operations are
+the parameter `F : FieldOps α`, a polynomial is its storage list, a function that can panic (index, `unwrap`, …) returns
+`Option` with `none` = panic, `while` loops carry a fuel.  The theorems below (proofs in `TF/Proofs/GenBridgePoly.lean`) say, for
+**every** `F` and **every** storage (stored leading zeros included): the regenerated function returns exactly the hand
+model's value — in particular it never panics and its fuel suffices.  "Stored leading zeros never change results" hinges on
+exactly these functions; a one-token change in one of them (e.g. `degree` not skipping zeros) breaks the corresponding
+theorem here.  The driver evaluates the regenerated definitions next to the hand model (`GEN-MISMATCH`). -/
+namespace TF.C17
+open TF TF.Model.Poly
+
+/-- regenerated `degree` (the `while deg >= 0 && coefficients[deg].is_zero()` loop) = hand model: all `F`, all storages -/
+theorem gen_degree_eq_model {α : Type} (F : FieldOps α) (p : List α) :
+    TF.Gen.Poly.degree F p = some (Model.Poly.degree F p) := TF.GenBridge.Poly.degree_eq F p
+example : TF.Gen.Poly.degree bfieldOps [1, 2, 0, 0] = some 1 ∧ TF.Gen.Poly.degree bfieldOps [0, 0] = some (-1) := by decide
+
+/-- regenerated `coefficients()` (`rposition` + slice), `normalize` (the `pop` loop) and `into_coefficients` = hand models -/
+theorem gen_coefficients_eq_model {α : Type} (F : FieldOps α) (p : List α) :
+    TF.Gen.Poly.coefficients F p = some (coefficients F p) ∧ TF.Gen.Poly.normalize F p = some (normalize F p) ∧
+    TF.Gen.Poly.into_coefficients F p = some (intoCoefficients F p) :=
+  ⟨TF.GenBridge.Poly.coefficients_eq F p, TF.GenBridge.Poly.normalize_eq F p, TF.GenBridge.Poly.into_coefficients_eq F p⟩
+example : TF.Gen.Poly.coefficients bfieldOps [1, 2, 0, 0] = some [1, 2] ∧ TF.Gen.Poly.normalize bfieldOps [0, 0] = some [] := by
+  decide
+
+/-- regenerated `leading_coefficient` (`match self.degree() { -1 => None, n => Some(coefficients[n]) }`) = hand model -/
+theorem gen_leading_coefficient_eq_model {α : Type} (F : FieldOps α) (p : List α) :
+    TF.Gen.Poly.leading_coefficient F p = some (leadingCoefficient F p) := TF.GenBridge.Poly.leading_coefficient_eq F p
+example : TF.Gen.Poly.leading_coefficient bfieldOps [1, 2, 0] = some (some 2) ∧
+    TF.Gen.Poly.leading_coefficient bfieldOps [0] = some none := by decide
+
+/-- regenerated `PartialEq::eq`, `is_zero` (`*self == Self::zero()`), `is_one`, `is_x` = hand models -/
+theorem gen_predicates_eq_model {α : Type} (F : FieldOps α) (p q : List α) :
+    TF.Gen.Poly.eq F p q = some (Model.Poly.eq F p q) ∧ TF.Gen.Poly.is_zero F p = some (isZero F p) ∧
+    TF.Gen.Poly.is_one F p = some (isOne F p) ∧ TF.Gen.Poly.is_x F p = some (isX F p) :=
+  ⟨TF.GenBridge.Poly.eq_eq F p q, TF.GenBridge.Poly.is_zero_eq F p, TF.GenBridge.Poly.is_one_eq F p,
+    TF.GenBridge.Poly.is_x_eq F p⟩
+example : TF.Gen.Poly.eq bfieldOps [1, 2] [1, 2, 0] = some true ∧ TF.Gen.Poly.is_zero bfieldOps [0, 0] = some true ∧
+    TF.Gen.Poly.is_one bfieldOps [1, 0] = some true ∧ TF.Gen.Poly.is_x bfieldOps [0, 1, 0] = some true := by decide
+
+/-- regenerated constructors = hand models (definitionally) -/
+theorem gen_constructors_eq_model {α : Type} (F : FieldOps α) (c : α) (l : List α) :
+    TF.Gen.Poly.new l = l ∧ (TF.Gen.Poly.zero : List α) = zero ∧ TF.Gen.Poly.one F = one F ∧
+    TF.Gen.Poly.from_constant c = fromConstant c ∧ TF.Gen.Poly.into_owned l = intoOwned l :=
+  ⟨rfl, rfl, rfl, rfl, rfl⟩
+example : TF.Gen.Poly.one bfieldOps = [1] ∧ TF.Gen.Poly.from_constant (7 : Nat) = [7] := by decide
+
+section transfer
+variable {K : Type} [Field K] (root : Nat → Option K)
+local notation "FK" => FieldOps.ofField K root
+open Classical Polynomial
+
+/-- **`accessors_respect_denote` / `degree_spec` / `leading_coefficient_spec` for the regenerated code**: on two storages of
+    the same polynomial every regenerated observer returns the same `some` value (no panic under padding), and
+    regenerated `degree` / `leading_coefficient` compute Mathlib's degree / leading coefficient -/
+theorem gen_accessors_transfer {a a' : List K} (h : denote a = denote a') :
+    TF.Gen.Poly.degree FK a = TF.Gen.Poly.degree FK a' ∧ TF.Gen.Poly.coefficients FK a = TF.Gen.Poly.coefficients FK a' ∧
+    TF.Gen.Poly.into_coefficients FK a = TF.Gen.Poly.into_coefficients FK a' ∧
+    TF.Gen.Poly.leading_coefficient FK a = TF.Gen.Poly.leading_coefficient FK a' ∧
+    TF.Gen.Poly.is_zero FK a = TF.Gen.Poly.is_zero FK a' ∧ TF.Gen.Poly.is_one FK a = TF.Gen.Poly.is_one FK a' ∧
+    TF.Gen.Poly.is_x FK a = TF.Gen.Poly.is_x FK a' ∧
+    TF.Gen.Poly.degree FK a = some (if denote a = 0 then -1 else ((denote a).natDegree : Int)) ∧
+    TF.Gen.Poly.leading_coefficient FK a = some (if denote a = 0 then none else some (denote a).leadingCoeff) := by
+  obtain ⟨h1, h2, h3, h4, h5, h6, h7⟩ := accessors_respect_denote root h
+  simp only [TF.GenBridge.Poly.degree_eq, TF.GenBridge.Poly.coefficients_eq, TF.GenBridge.Poly.into_coefficients_eq,
+    TF.GenBridge.Poly.leading_coefficient_eq, TF.GenBridge.Poly.is_zero_eq, TF.GenBridge.Poly.is_one_eq,
+    TF.GenBridge.Poly.is_x_eq, h1, h2, h3, h4, h5, h6, h7, true_and]
+  exact ⟨by rw [← h1, degree_spec], by rw [← h4, (leading_coefficient_spec root a).1]⟩
+example : denote ([0, 1, 0, 0] : List ℚ) = denote [0, 1] := by simp
+
+/-- `eq_iff_denote` for the regenerated `==`: it never panics and decides equality of the denoted polynomials -/
+theorem gen_eq_transfer (a b : List K) : TF.Gen.Poly.eq FK a b = some (decide (denote a = denote b)) := by
+  rw [(gen_predicates_eq_model FK a b).1]
+  congr 1
+  by_cases h : denote a = denote b
+  · simp [h, (eq_iff_denote root a b).2 h]
+  · have : Model.Poly.eq FK a b ≠ true := fun he => h ((eq_iff_denote root a b).1 he)
+    simp [h, this]
+example : TF.Gen.Poly.eq (FieldOps.ofField ℚ) [1, 2] [1, 2, 0] = some true := by
+  rw [gen_eq_transfer]; simp
+
+end transfer
+end TF.C17
+
+/-! ### regenerated ring operations, evaluation, truncation (BT6, continued) -/
+namespace TF.C17
+open TF TF.Model.Poly
+
+/-- regenerated `+`, `-` (`zip_longest` + `match`), unary `-` (`scalar_mul_mut(-ONE)`), `+=` = hand models -/
+theorem gen_ring_ops_eq_model {α : Type} (F : FieldOps α) (a b : List α) :
+    TF.Gen.Poly.add F a b = add F a b ∧ TF.Gen.Poly.sub F a b = sub F a b ∧ TF.Gen.Poly.neg F a = neg F a ∧
+    TF.Gen.Poly.add_assign F a b = some (addAssign F a b) :=
+  ⟨TF.GenBridge.Poly.add_eq F a b, TF.GenBridge.Poly.sub_eq F a b, rfl, TF.GenBridge.Poly.add_assign_eq F a b⟩
+example : TF.Gen.Poly.add bfieldOps [1, 2] [1, 1, 1] = [2, 3, 1] ∧ TF.Gen.Poly.sub bfieldOps [1] [1, 1] = [0, 18446744069414584320] ∧
+    TF.Gen.Poly.add_assign bfieldOps [1, 2] [1, 1, 1] = some [2, 3, 1] := by decide
+
+/-- regenerated `evaluate` (Horner loop, any indeterminate / result type), `formal_derivative` = hand models -/
+theorem gen_evaluate_eq_model {α ι ε : Type} (F : FieldOps α) (zeroE : ε) (mulX : ε → ι → ε) (addC : ε → α → ε)
+    (p : List α) (x : ι) :
+    TF.Gen.Poly.evaluate F zeroE mulX addC p x = evaluateG zeroE mulX addC p x ∧
+    TF.Gen.Poly.formal_derivative F p = formalDerivative F p :=
+  ⟨TF.GenBridge.Poly.evaluate_eq F zeroE mulX addC p x, TF.GenBridge.Poly.formal_derivative_eq F p⟩
+example : TF.Gen.Poly.evaluate bfieldOps 0 bfieldOps.mul bfieldOps.add [1, 2, 3] 2 = 17 ∧
+    TF.Gen.Poly.formal_derivative bfieldOps [1, 2, 3] = [2, 6] := by decide
+
+/-- regenerated `truncate` reads `coefficients()` (not the raw storage) and saturates `k + 1` in `usize`: it is the hand
+    model `truncateUsize` for every `k`; regenerated `mod_x_to_the_n` and `reverse` = hand models -/
+theorem gen_truncate_eq_model {α : Type} (F : FieldOps α) (p : List α) (k : Nat) :
+    TF.Gen.Poly.truncate F p k = some (truncateUsize F p k) ∧ TF.Gen.Poly.mod_x_to_the_n F p k = some (modXToTheN p k) ∧
+    TF.Gen.Poly.reverse F p = some (Model.Poly.reverse F p) :=
+  ⟨by rw [TF.GenBridge.Poly.truncate_eq]; simp [truncateUsize, USIZE_MOD, List.take_reverse],
+    TF.GenBridge.Poly.mod_x_to_the_n_eq F p k, TF.GenBridge.Poly.reverse_eq F p⟩
+example : TF.Gen.Poly.truncate bfieldOps [0, 1, 2, 3, 4, 0, 0] 1 = some [3, 4] := by decide
+
+section transfer2
+variable {K : Type} [Field K] (root : Nat → Option K)
+local notation "FK" => FieldOps.ofField K root
+open Classical Polynomial
+
+/-- **`truncate_usize_respects_denote`, `evaluate_respects_denote`, `add_assign_spec`, `formal_derivative_spec` for the
+    regenerated code**: on two storages of the same polynomial regenerated `truncate` and `evaluate` return the same value -/
+theorem gen_value_semantics_transfer {a a' : List K} (h : denote a = denote a') (b : List K) (k : Nat) (x : K) :
+    TF.Gen.Poly.truncate FK a k = TF.Gen.Poly.truncate FK a' k ∧
+    TF.Gen.Poly.evaluate FK (FK).zero (FK).mul (FK).add a x = TF.Gen.Poly.evaluate FK (FK).zero (FK).mul (FK).add a' x ∧
+    (∃ r, TF.Gen.Poly.add_assign FK a b = some r ∧ denote r = denote a + denote b) ∧
+    denote (TF.Gen.Poly.formal_derivative FK a) = derivative (denote a) := by
+  refine ⟨?_, ?_, ⟨_, (gen_ring_ops_eq_model FK a b).2.2.2, add_assign_spec root a b⟩, ?_⟩
+  · rw [(gen_truncate_eq_model FK a k).1, (gen_truncate_eq_model FK a' k).1, (truncate_usize_respects_denote root h k).1]
+  · rw [(gen_evaluate_eq_model FK _ _ _ a x).1, (gen_evaluate_eq_model FK _ _ _ a' x).1]
+    exact evaluate_respects_denote root h x
+  · rw [(gen_evaluate_eq_model FK (FK).zero (FK).mul (FK).add a x).2]; exact formal_derivative_spec root a
+example : denote ([1, 2, 0, 0] : List ℚ) = denote [1, 2] := by simp
+
+end transfer2
 end TF.C17
